@@ -479,6 +479,12 @@ func anywhere(r rune, p *Parser) stateFn {
 			p.exit = nil
 		}
 		p.clear()
+		if p.r.Buffered() > 0 {
+			// The byte which follows has arrived already, this is not
+			// the Escape key. We don't depend on reading it before
+			// the timer fires
+			return escape
+		}
 		p.escTimeout = time.AfterFunc(10*time.Millisecond, func() {
 			p.mu.Lock()
 			defer p.mu.Unlock()
